@@ -8,18 +8,6 @@ From SA Require Import Model.
 From SA.Proofs Require Import Reach.
 Local Open Scope list_scope.
 
-Definition defs (c : list instr) : list N :=
-  flat_map (fun i => match def_reg i with Some r => [r] | None => [] end) c.
-
-Lemma defs_app c1 c2 : defs (c1 ++ c2) = defs c1 ++ defs c2.
-Proof. unfold defs. apply flat_map_app. Qed.
-
-Lemma defs_snoc_none c i : def_reg i = None -> defs (c ++ [i]) = defs c.
-Proof. intro H. rewrite defs_app. cbn. rewrite H. cbn. apply app_nil_r. Qed.
-
-Lemma defs_snoc_some c i r : def_reg i = Some r -> defs (c ++ [i]) = defs c ++ [r].
-Proof. intro H. rewrite defs_app. cbn. rewrite H. reflexivity. Qed.
-
 Definition regs_ok (h : N) (c : list instr) : Prop :=
   StronglySorted N.lt (defs c) /\ Forall (fun r => 0 < r <= h) (defs c).
 
